@@ -6,9 +6,11 @@
   `schemacode` correspondence suite ties both to the working tree on every run.  Whether the whole
   emitted text *compiles* is decided by CPython's parser at run time (the partial residue).
 
-  The code violates the full statement today; per DESIGN §5.1 the full statements are `def … : Prop`,
-  the `_partial` theorems carry an explicit decidable exclusion of exactly the known-finding region,
-  and each finding has a kernel-checked counterexample.
+  After the repo fixes 27ab79d / c6f49db / d1407f7 / 198db4a / 3966255 the text part holds in full
+  (every pattern, default, enum value, required name and — up to NUL — every description is emitted
+  as a literal that denotes exactly that string) and the caller's schema is never written to.
+  The round trip still has excluded regions: full statement as `def … : Prop`, `_inverse` theorems
+  on the explicit fragment, a kernel-checked counterexample per remaining region.
 -/
 import TypedpyModel.Lemmas.PyLex
 import TypedpyModel.Lemmas.SchemaToCode
@@ -17,54 +19,9 @@ open Typedpy Typedpy.PyLex
 
 /-! ## text: the string literals the generator emits -/
 
-/-- the string has no `'`, backslash, newline, carriage return or NUL -/
-def NoQuoteBackslashNewline (s : String) : Prop := ∀ c ∈ s.toList, plainChar c = true
-
-/-- the description has no backslash, carriage return or NUL and no `"""` -/
-def DocSafe (d : String) : Prop := (∀ c ∈ d.toList, docChar c = true) ∧ noTriple d.toList = true
-
-/-- full statement (false today): every string a schema can carry survives plain quoting -/
-def wrap_val_statement : Prop := ∀ s : String, pyLexStr (wrapVal s) = some s
-/-- full statement (false today): every description becomes the docstring it was meant to be -/
-def description_statement : Prop := ∀ d : String, pyLexStr (docWrap d) = some (docValue d)
-
-/-- `wrap_val` (used for `pattern` and for `str` defaults) is faithful on every string without
-    quote / backslash / newline — all lengths, all other characters incl. non-ASCII -/
-theorem wrap_val_safe (s : String) (h : NoQuoteBackslashNewline s) :
-    pyLexStr (wrapVal s) = some s := by
-  simp only [pyLexStr, wrapVal, String.toList_ofList, lexSrc_wrapL s.toList h, Option.map_some,
-    String.ofList_toList]
-
-/-- the docstring template is faithful on every description without backslash / CR / `"""` -/
-theorem description_safe (d : String) (h : DocSafe d) :
-    pyLexStr (docWrap d) = some (docValue d) := by
-  simp only [pyLexStr, docWrap, docValue, String.toList_ofList, lexSrc_docWrapL d.toList h.1 h.2,
-    Option.map_some]
-
-/-- the literal emitted for a `pattern` is faithful when the pattern is plain -/
-theorem pattern_site_partial (pr : Char → Bool) (lo hi : Option Nat) (p : String)
-    (h : NoQuoteBackslashNewline p) :
-    ∀ site ∈ stringSites pr (.str lo hi (some p)), site.faithful = true := by
-  intro site hs
-  simp only [stringSites, List.mem_singleton] at hs
-  subst hs
-  simp [StringSite.faithful, wrap_val_safe p h]
-
-/-- the literal emitted for a `str` default is faithful when the default is plain -/
-theorem default_site_partial (pr : Char → Bool) (d : String) (h : NoQuoteBackslashNewline d) :
-    ∀ site ∈ defaultSites pr (.str d), site.faithful = true := by
-  intro site hs
-  simp only [defaultSites, List.mem_singleton] at hs
-  subst hs
-  simp [StringSite.faithful, wrap_val_safe d h]
-
-theorem description_site_partial (d : String) (h : DocSafe d) :
-    (descriptionSite d).faithful = true := by
-  simp [StringSite.faithful, descriptionSite, description_safe d h]
-
-/-- `repr(str)` — which is what list formatting applies to enum values, `_required` names and
-    list/dict defaults — is faithful for EVERY string (all characters, whatever `str.isprintable`
-    answers): these sites cannot break the generated source -/
+/-- `repr(str)` — `_str_literal` for patterns and `str` defaults, and what list formatting applies
+    to enum values, `_required` names and list/dict defaults — is faithful for EVERY string (all
+    characters, whatever `str.isprintable` answers) -/
 theorem repr_safe (pr : Char → Bool) (s : String) : pyLexStr (pyRepr pr s) = some s := by
   simp only [pyLexStr, pyRepr, String.toList_ofList, lexSrc_pyReprL, Option.map_some,
     String.ofList_toList]
@@ -127,56 +84,112 @@ theorem required_site_faithful (pr : Char → Bool) (names : List String) :
     · simp [StringSite.faithful, repr_safe]
     · exact ih x hx
 
-/-- a list / dict default (emitted as `lambda: <repr>`) never produces a broken literal -/
-theorem default_repr_site_faithful (pr : Char → Bool) (v : PyVal) (h : ∀ s, v ≠ .str s) :
-    ∀ x ∈ defaultSites pr v, x.faithful = true := by
-  intro x hx
+/-- the literal emitted for a `pattern` denotes the pattern — all strings -/
+theorem pattern_site_faithful (pr : Char → Bool) (lo hi : Option Nat) (p : String) :
+    ∀ site ∈ stringSites pr (.str lo hi (some p)), site.faithful = true := by
+  intro site hs
+  simp only [stringSites, List.mem_singleton] at hs
+  subst hs
+  simp [StringSite.faithful, repr_safe]
+
+/-- the literal emitted for any default (`str` through `repr`, list/dict through `repr` inside a
+    lambda) denotes the default — all values -/
+theorem default_site_faithful (pr : Char → Bool) (v : PyVal) :
+    ∀ site ∈ defaultSites pr v, site.faithful = true := by
+  intro site hs
   cases v with
-  | str s => exact absurd rfl (h s)
-  | _ => exact reprSites_faithful pr "default-repr" _ x (by simpa [defaultSites] using hx)
+  | str d =>
+    simp only [defaultSites, List.mem_singleton] at hs
+    subst hs
+    simp [StringSite.faithful, repr_safe]
+  | _ => exact reprSites_faithful pr "default-repr" _ site (by simpa [defaultSites] using hs)
 
-/-! ### kernel-checked counterexamples (known findings `unescaped:<site>`) -/
+/-- full statement (false today, residue NUL): every description becomes the docstring it was
+    meant to be -/
+def description_statement : Prop := ∀ d : String, pyLexStr (docWrap d) = some (docValue d)
 
-/-- `'` in a pattern: the emitted literal closes early (the source does not compile) -/
-theorem unescaped_pattern_quote :
-    (stringSites (fun _ => true) (.str none none (some "it's"))).all (·.faithful) = false := by decide
-/-- backslash in a pattern: `\b` silently becomes a backspace (a different regex) -/
-theorem unescaped_pattern_backslash : pyLexStr (wrapVal "\\bword\\b") = some "\x08word\x08" := by
-  decide
-/-- trailing backslash: escapes the closing quote, unterminated literal -/
-theorem unescaped_pattern_trailing_backslash : pyLexStr (wrapVal "a\\") = none := by decide
-/-- raw newline inside a short literal -/
-theorem unescaped_pattern_newline : pyLexStr (wrapVal "a\nb") = none := by decide
-theorem unescaped_default_quote :
-    (defaultSites (fun _ => true) (.str "it's")).all (·.faithful) = false := by decide
-theorem unescaped_default_backslash_n : pyLexStr (wrapVal "a\\nb") = some "a\nb" := by decide
-theorem unescaped_default_newline : pyLexStr (wrapVal "a\nb") = none := by decide
-/-- `"""` in a description ends the docstring early -/
-theorem unescaped_description_triple : (descriptionSite "say \"\"\"hi\"\"\"").faithful = false := by
-  decide
-/-- a description ending in a backslash swallows the newline of the template -/
-theorem unescaped_description_trailing_backslash :
-    pyLexStr (docWrap "path\\") = some "\n    path    " := by decide
-/-- backslash escapes in a description are interpreted -/
-theorem unescaped_description_escape : (descriptionSite "a\\tb").faithful = false := by decide
+/-- the docstring template with `_docstring_text` escaping is faithful for every description
+    without a NUL character (quotes, `"""`, backslashes, CR, newlines, non-ASCII all included) -/
+theorem description_safe (d : String) (h : cNUL ∉ d.toList) :
+    pyLexStr (docWrap d) = some (docValue d) := by
+  simp only [pyLexStr, docWrap, docValue, String.toList_ofList, lexSrc_docWrapL d.toList h,
+    Option.map_some]
 
-theorem wrap_val_statement_false : ¬ wrap_val_statement := by
-  intro h
-  have := h "it's"
-  revert this
-  decide
+theorem description_site_faithful (d : String) (h : cNUL ∉ d.toList) :
+    (descriptionSite d).faithful = true := by
+  simp [StringSite.faithful, descriptionSite, description_safe d h]
+
+/-- finding `unescaped:description-nul`: a NUL in the description is pasted into the source as is
+    ("source code string cannot contain null bytes") -/
+theorem unescaped_description_nul :
+    (descriptionSite (String.ofList ['a', cNUL, 'b'])).faithful = false := by decide
 theorem description_statement_false : ¬ description_statement := by
   intro h
-  have := h "say \"\"\"hi\"\"\""
+  have := h (String.ofList ['a', cNUL, 'b'])
   revert this
   decide
 
-/-- enum values, `_required` and list/dict defaults go through `repr` (list formatting), which
-    escapes: hostile strings are faithful there (no `unescaped:enum` finding) -/
-theorem enum_repr_examples :
-    (stringSites (fun _ => true)
-      (.enum [.str "it's", .str "a\\b", .str "x\ny", .str "q\"'z", .str "é\t"])).all (·.faithful)
-      = true := by decide
+/-- every string-bearing site of every schema (patterns, enum members, `_required`, defaults, at
+    any nesting depth) is emitted as a literal that denotes exactly the schema's string -/
+theorem defaultsSites_faithful (pr : Char → Bool) :
+    ∀ (ds : List (String × PyVal)) (x : StringSite), x ∈ defaultsSites pr ds → x.faithful = true
+  | [], _, hx => by simp [defaultsSites] at hx
+  | (_, v) :: rest, x, hx => by
+    simp only [defaultsSites, List.mem_append] at hx
+    rcases hx with hx | hx
+    · exact default_site_faithful pr v x hx
+    · exact defaultsSites_faithful pr rest x hx
+
+mutual
+theorem all_sites_faithful (pr : Char → Bool) :
+    ∀ (s : Schema) (x : StringSite), x ∈ stringSites pr s → x.faithful = true
+  | .str lo hi (some p), x, hx => pattern_site_faithful pr lo hi p x hx
+  | .str _ _ none, _, hx => by simp [stringSites] at hx
+  | .enum vs, x, hx => enum_site_faithful pr vs x hx
+  | .arrOf s _, x, hx => all_sites_faithful pr s x (by simpa [stringSites] using hx)
+  | .arrPos ss _ _, x, hx => all_sites_faithfulL pr ss x (by simpa [stringSites] using hx)
+  | .mapOf v _ _, x, hx => all_sites_faithful pr v x (by simpa [stringSites] using hx)
+  | .obj props defaults required _, x, hx => by
+    simp only [stringSites, List.mem_append] at hx
+    rcases hx with (hx | hx) | hx
+    · exact required_site_faithful pr _ x hx
+    · exact defaultsSites_faithful pr defaults x hx
+    · exact all_sites_faithfulP pr props x hx
+  | .allOf ss, x, hx => all_sites_faithfulL pr ss x (by simpa [stringSites] using hx)
+  | .anyOf ss, x, hx => all_sites_faithfulL pr ss x (by simpa [stringSites] using hx)
+  | .oneOf ss, x, hx => all_sites_faithfulL pr ss x (by simpa [stringSites] using hx)
+  | .notS ss, x, hx => all_sites_faithfulL pr ss x (by simpa [stringSites] using hx)
+  | .num _ _ _ _ _, _, hx => by simp [stringSites] at hx
+  | .bool, _, hx => by simp [stringSites] at hx
+  | .arrAny _, _, hx => by simp [stringSites] at hx
+  | .mapAny _ _ _, _, hx => by simp [stringSites] at hx
+  | .ref _, _, hx => by simp [stringSites] at hx
+  | .retyped _, _, hx => by simp [stringSites] at hx
+  | .unsupported _, _, hx => by simp [stringSites] at hx
+theorem all_sites_faithfulL (pr : Char → Bool) :
+    ∀ (ss : List Schema) (x : StringSite), x ∈ stringSitesL pr ss → x.faithful = true
+  | [], _, hx => by simp [stringSitesL] at hx
+  | s :: ss, x, hx => by
+    simp only [stringSitesL, List.mem_append] at hx
+    rcases hx with hx | hx
+    · exact all_sites_faithful pr s x hx
+    · exact all_sites_faithfulL pr ss x hx
+theorem all_sites_faithfulP (pr : Char → Bool) :
+    ∀ (ps : List (String × Schema)) (x : StringSite), x ∈ stringSitesP pr ps → x.faithful = true
+  | [], _, hx => by simp [stringSitesP] at hx
+  | (_, s) :: ps, x, hx => by
+    simp only [stringSitesP, List.mem_append] at hx
+    rcases hx with hx | hx
+    · exact all_sites_faithful pr s x hx
+    · exact all_sites_faithfulP pr ps x hx
+end
+
+/-- hostile strings, kernel-evaluated end to end -/
+theorem hostile_examples :
+    (stringSites (fun c => c.toNat < 256)
+      (.obj [("p", .str none none (some "^it's\\b\n\"\"\"")), ("e", .enum [.str "a\\b", .str "x\ny", .str "q\"'z​"])]
+        [("p", .str "it's\\n")] (some ["p"]) true)).all (·.faithful) = true
+    ∧ (descriptionSite "say \"\"\"hi\"\"\"\" \\ \r end\\").faithful = true := by decide
 
 /-! ## semantics: schema → generated declaration → schema -/
 
@@ -210,10 +223,6 @@ def rho0 : String → FieldDecl := envResolver []
 theorem rho0_classes : RefsAreClasses rho0 := fun _ => ⟨_, _, _, rfl, rfl, rfl⟩
 
 /-- `minItems` / `maxItems` of arrays are dropped (finding `roundtrip:array-size-dropped`) -/
-theorem roundtrip_counterexample_array_size :
-    normReq (toSchemaF (schemaToDecl rho0 (.arrAny { min := some 1 }))) ≠ normReq (.arrAny { min := some 1 }) := by
-  simp [schemaToDecl, toSchemaF, arraySize, normReq]
-/-- a property with a default comes back as required (finding `roundtrip:default-forces-required`) -/
 theorem roundtrip_counterexample_default_required :
     normReq (toSchemaF (schemaToDecl rho0
       (.obj [("a", .bool), ("b", .bool)] [("a", .bool true)] (some ["b"]) true)))
@@ -234,43 +243,29 @@ theorem roundtrip_counterexample_single_field :
     inlineOpts]
 
 theorem roundtrip_statement_false : ¬ roundtrip_statement := fun h =>
-  roundtrip_counterexample_array_size (h rho0 rho0_classes _)
+  roundtrip_counterexample_required_absent (h rho0 rho0_classes _)
 
 /-! ## the caller's schema is not modified -/
 
-/-- full statement (false today) -/
-def required_not_mutated_statement : Prop := ∀ s : Schema, requiredAfter s = requiredBefore s
+/-- `schema_to_struct_code` never writes to the caller's `required` list: every schema -/
+theorem required_not_mutated (s : Schema) : requiredAfter s = requiredBefore s := by
+  unfold requiredAfter runRequired
+  cases s <;> simp only []
+  rename_i props defaults req addl
+  cases req <;> rfl
 
-/-- `schema_to_struct_code` leaves the caller's `required` list alone when no property that has a
-    default is listed in it -/
-theorem required_not_mutated (props : List (String × Schema)) (defaults : List (String × PyVal))
-    (req : List String) (addl : Bool)
-    (h : ∀ n ∈ defaults.map (·.1), n ∉ req) :
-    requiredAfter (.obj props defaults (some req) addl)
-      = requiredBefore (.obj props defaults (some req) addl) := by
-  simp only [requiredAfter, requiredBefore]
-  congr 1
-  apply requiredPost_id
-  intro n hn
-  simp only [List.mem_filter, List.contains_iff_mem] at hn
-  exact h n hn.2
-
-/-- finding `mutates-input:required`: a required property with a default is `remove`d from the
-    caller's list -/
-theorem required_mutated_counterexample :
+/-- … while the emitted `_required` does drop the defaulted names (non-vacuity of the model) -/
+theorem emitted_required_example :
+    emittedRequired (.obj [("a", .bool), ("b", .bool)] [("a", .bool true)] (some ["a", "b"]) true)
+      = some ["b"] ∧
     requiredAfter (.obj [("a", .bool), ("b", .bool)] [("a", .bool true)] (some ["a", "b"]) true)
-      = some ["b"] := by decide
-theorem required_not_mutated_statement_false : ¬ required_not_mutated_statement := by
-  intro h
-  have := h (.obj [("a", .bool), ("b", .bool)] [("a", .bool true)] (some ["a", "b"]) true)
-  revert this
-  decide
+      = some ["a", "b"] := by decide
 
 /-! ## non-vacuity -/
 
 def exampleSchema : Schema :=
   .obj [("name", .str (some 1) (some 8) (some "^[A-Za-z]+$")),
-        ("tags", .arrOf (.enum [.str "a", .int 2]) { uniq := true }),
+        ("tags", .arrOf (.enum [.str "a", .int 2]) { min := some 1, max := some 4, uniq := true }),
         ("pos", .arrPos [.num true (some 5) none (some ⟨10, 1⟩) true, .num false none none none false] false {}),
         ("inner", .obj [("x", .num true none none none false), ("y", .bool)] [("y", .bool false)]
                      (some ["y", "x"]) false),
@@ -282,8 +277,5 @@ theorem roundtrip_example :
     inCodeFragment exampleSchema = true ∧
     normReq (toSchemaClass (schemaToClass rho0 "Foo" exampleSchema)) = normReq exampleSchema :=
   ⟨by decide, schemaToClass_inverse rho0 rho0_classes "Foo" _ _ _ _ (by decide)⟩
-
-theorem wrap_val_example : pyLexStr (wrapVal "^[A-Za-zé]+\"$") = some "^[A-Za-zé]+\"$" :=
-  wrap_val_safe _ (by unfold NoQuoteBackslashNewline; decide)
 
 end Typedpy.C09
